@@ -33,6 +33,17 @@ def install_externals(X):
             return FloatInt(x)
         raise OutOfSubset("np.round of %r" % (x,))
 
+    @X.register("numpy.fmod")
+    def _(interp, args, kwargs):
+        # C fmod: the result has the sign of the dividend: a - b * trunc(a / b)
+        a, b = [z3num(v) for v in args[:2]]
+        a = z3.ToReal(a) if z3.is_int(a) else a
+        b = z3.ToReal(b) if z3.is_int(b) else b
+        interp.side_nonzero(b)
+        q = a / b
+        trunc = z3.If(q >= 0, z3.ToReal(z3.ToInt(q)), -z3.ToReal(z3.ToInt(-q)))
+        return simp(a - b * trunc)
+
     @X.register("numpy.clip")
     def _(interp, args, kwargs):
         x, lo, hi = [z3num(a) for a in args[:3]]
